@@ -381,6 +381,8 @@ class Ctx:
         input / call site / history class (matched against known_findings.json)."""
         for kf in self.known.get("findings", []):
             if kf.get("property") == self.pid and sig_match(kf.get("signature", {}), signature):
+                if os.environ.get("VERIF_DEBUG_SIGS"):
+                    print("[vcheck] known-finding match: %s" % json.dumps(signature, sort_keys=True, default=str), flush=True)
                 if kf not in self.known_hits:
                     self.known_hits.append(kf)
                     print("KNOWN-FINDING: property=%s %s" % (self.pid, kf.get("what", json.dumps(kf.get("signature")))), flush=True)
